@@ -29,6 +29,22 @@ def run(ctx):
                 hist[(it.get("kind"), it["diag"], it.get("field"), it.get("decoder"), it.get("side"), str(it.get("msg"))[:60])] += 1
         for k, n in sorted(hist.items(), key=lambda x: str(x)):
             H.log("HIST %5d %s" % (n, k))
+    def _alter_decoded(evs):
+        for e in evs:
+            if e.get("op") == "codec" and e.get("enc") == "ok" and e.get("dec") == "ok" and e.get("d"):
+                k = sorted(e["d"])[0]
+                v = e["d"][k]
+                e["d"][k] = (v + 1) if isinstance(v, int) and not isinstance(v, bool) else ((not v) if isinstance(v, bool) else ("altered" if isinstance(v, str) else []))
+                return evs
+        return None
+
+    def _alter_determinism(evs):
+        for e in evs:
+            if e.get("op") == "codec" and e.get("enc") == "ok" and e.get("det") is True:
+                e["det"] = False
+                return evs
+        return None
+    selftest = H.binding_selftest(ctx, "C11Trace.tla", "C11_trace.cfg", trace, [("decoded-field-altered", _alter_decoded), ("second-encoding-differs", _alter_determinism)])
     st = verdict["stats"]
     kinds = collections.Counter(c["kind"] for c in cases)
     cov = {
@@ -41,7 +57,7 @@ def run(ctx):
         "per_kind": dict(kinds),
         "samples": [cases[0], cases[len(cases) // 2], cases[-1]],
         "states": gr.distinct, "transitions": gr.generated, "exhaustive": True,
-        "trace_stats": st, "rejected_cases": len(verdict["bad"]), "known_findings_matched": known,
+        "trace_stats": st, "rejected_cases": len(verdict["bad"]), "known_findings_matched": known, "binding_selftest": selftest,
     }
     H.write_evidence(ctx, LEVEL, cov, ASSUME, nviol)
     H.log("C11 %s: cases=%d roundtrips=%d refused=%d rejected=%d violations=%d known=%s wall=%.1fs" % (
